@@ -80,8 +80,8 @@ define("C11", "Properties/C11.v", ["C02_inst.v"], [("sock", []), ("reader", [])]
        "Theorems: for every recv-event list and read-size sequence: handed-out bytes ++ buffer ++ data to come is invariant; each read is full-length or empty; an empty read happens only at timeout/close/end and keeps everything received; data-only segmentations give identical reads; the reader over a socket yields the same complete trace as over a file for every segmentation of a well-formed stream.",
        "streams of 1..120 bytes x exhaustive 1-cut/2-cut and random partitions x bufsizes x read/readline op sequences; reader over fake socket.socket subclass",
        ["real kernels / timeouts are the recv-event list (environment parameter)"])
-define("C12", "Properties/C12.v", [], [("sock", [])],
-       "Theorems: for every well-formed chunked body, decoding oracle and placement of receive boundaries (also reads interleaved with receives, timeouts anywhere) the delivered bytes are the concatenation of the decoded chunk bodies.",
+define("C12", "Properties/C12.v", ["C02_inst.v"], [("sock", []), ("reader", [])],
+       "Theorems: for every well-formed chunked body, decoding oracle and placement of receive boundaries (also reads interleaved with receives, timeouts anywhere) the delivered bytes are the concatenation of the decoded chunk bodies; end to end: the reader over a chunked socket yields the same complete trace as over a file holding the decoded bytes, for every chunking and segmentation (non-expanding decoder).",
        "11+ bodies (binary data with CRLF/hex digits, upper-case sizes, leading zeros, no last-chunk, gzip/zlib/deflate per chunk) x every single cut, sampled/all double cuts, sampled triple cuts, byte-wise",
        ["zlib is an oracle: per-chunk decompression results are recorded from the implementation's zlib"])
 define("C16", "Properties/C16.v", ["C04_inst.v"], [("msg", [])],
